@@ -18,6 +18,7 @@ From CB Require Import Trie.Arena.
 From CB Require Import Trie.ArenaProofs.
 From CB Require Import Trie.ArenaCow.
 From CB Require Import Trie.ArenaTree.
+From CB Require Import Trie.ArenaView.
 Import ListNotations.
 Local Open Scope N_scope.
 
@@ -390,6 +391,46 @@ Example arena_rollback_nonvacuous :
   /\ as_run (ONewGen :: ops ++ [ONormalize (length (a_gens (as_arena s)) - 1)]) s = s.
 Proof. split; [repeat constructor | vm_compute; repeat split]. Qed.
 Print Assumptions arena_rollback_nonvacuous.
+
+(** ** Towards [arena_refines_radix] (PARTIAL: abstraction function + lookup only).
+    [abs_t d a idx] unfolds the arena below node [idx] into a radix tree of entry indices (to
+    depth [d]); [vview] resolves the entries to their values.  [EInv]: the entries referenced
+    by nodes exist (a hypothesis here: preserved by the lookup, not yet shown for every
+    operation).  Insert / delete / delete_prefix are NOT covered (see design notes). *)
+
+(** [make_owned] - the copying of a shared children vector, which renumbers nodes and
+    entries - changes neither the view of any existing node nor the value of any existing
+    entry. *)
+Theorem arena_make_owned_keeps_view_partial : forall a idx,
+  AInv a -> TInv a -> EInv a -> (cpn a <= idx)%nat -> (idx < length (a_nodes a))%nat ->
+  (forall d j, (j < length (a_nodes a))%nat -> vview d (make_owned a idx) j = vview d a j)
+  /\ (forall e, (e < length (a_entries a))%nat -> a_with_entry (make_owned a idx) e = a_with_entry a e)
+  /\ EInv (make_owned a idx).
+Proof. exact make_owned_view. Qed.
+Print Assumptions arena_make_owned_keeps_view_partial.
+
+(** The copying lookup of the arena returns exactly what [Radix.lookup] finds in the radix
+    tree assigned to the root by the abstraction function, and leaves all views and entry
+    values as they were. *)
+Theorem arena_lookup_refines_radix_partial : forall a key r,
+  AInv a -> TInv a -> EInv a -> cur_root a = Some r ->
+  let res := a_lookup_key a key in
+  option_map (a_with_entry (fst res)) (snd res) = lookup (nib key) (vview (S (length (nib key))) a r)
+  /\ (forall d j, (j < length (a_nodes a))%nat -> vview d (fst res) j = vview d a j)
+  /\ (forall e, (e < length (a_entries a))%nat -> a_with_entry (fst res) e = a_with_entry a e)
+  /\ EInv (fst res).
+Proof. exact ArenaView.arena_lookup_refines_radix_partial. Qed.
+Print Assumptions arena_lookup_refines_radix_partial.
+
+Example arena_view_nonvacuous :
+  let s := as_run [OInsert [18] [1]; OInsert [19] [2]; ONewGen] as_init in
+  let a := as_arena s in
+  exists r, cur_root a = Some r
+    /\ lookup (nib [19]) (vview 3 a r) = Some (Some [2])
+    /\ option_map (a_with_entry (fst (a_lookup_key a [19]))) (snd (a_lookup_key a [19])) = Some (Some [2])
+    /\ length (a_nodes (fst (a_lookup_key a [19]))) = (length (a_nodes a) + 2)%nat.
+Proof. exact view_example. Qed.
+Print Assumptions arena_view_nonvacuous.
 
 (** ** Non-vacuity: concrete histories exercising the interesting shapes *)
 
